@@ -13,6 +13,8 @@ pub fn generate(stream: &str, seed: u64, n: usize, emit: &mut dyn FnMut(String))
 		"ser" | "ser-valid" | "ser-mut" | "ser-sink" => ser::generate(stream, seed, n, emit),
 		"crc" => crc::generate(seed, n, emit),
 		"rt" => ser::generate_rt(seed, n, emit),
+		"reuse" => ser::generate_reuse(seed, n, emit),
+		"perm" => ser::generate_perm(seed, n, emit),
 		"c11" => de::generate_c11(seed, n, emit),
 		"ocfw" | "ocfw-sink" => ocf::generate_w(stream, seed, n, emit),
 		"ocfr" | "ocfr-null" | "ocfr-damage" | "ocfd" => ocf::generate_r(stream, seed, n, emit),
@@ -28,6 +30,8 @@ pub fn run_line(line: &str) -> String {
 		"ser" => ser::run(line),
 		"crc" => crc::run(line),
 		"rt" => ser::run_rt(line),
+		"reuse" => ser::run_reuse(line),
+		"perm" => ser::run_perm(line),
 		"de" => de::run(line),
 		"c11" => de::run_c11(line),
 		"ocfw" => ocf::run_w(line),
